@@ -510,3 +510,29 @@ Proof.
   unfold kw_unique, kw_distinct. rewrite (ltb_1_false _ L), E, (gadd_refuses gs [] Hn).
   destruct invert; split; reflexivity.
 Qed.
+
+(* ---------- parameter present / absent where it must not / must be ---------- *)
+Section Params.
+Variable lit : string -> outcome litres.
+Variable re_search : string -> string -> outcome reres.
+Variable node_str : node -> string.
+
+(* more than one parameter; a parameter with a plain list; none with an
+   Array-of-Hashes or a hash: refused by all four keywords *)
+Lemma params_refused : forall cmp invert params data x,
+  (1 < List.length params \/
+   (exists i els p, data = NSeq i els /\ node_is_aoh true data = false /\ params = [p]) \/
+   (exists i els, data = NSeq i els /\ node_is_aoh true data = true /\ params = []) \/
+   (exists i kvs, data = NMap i kvs /\ params = [])) ->
+  extremum lit re_search node_str cmp invert params data x = Raise (YPE Generic) /\
+  kw_unique invert params data x = Raise (YPE Generic) /\
+  kw_distinct invert params data x = Raise (YPE Generic).
+Proof.
+  intros cmp invert params data x H. unfold extremum, kw_unique, kw_distinct, group_values.
+  destruct H as [H|[H|[H|H]]].
+  - apply Nat.ltb_lt in H. rewrite H. destruct invert; repeat split; reflexivity.
+  - destruct H as [i [els [p [-> [Ha ->]]]]]. rewrite Ha. destruct invert; repeat split; reflexivity.
+  - destruct H as [i [els [-> [Ha ->]]]]. rewrite Ha. destruct invert; repeat split; reflexivity.
+  - destruct H as [i [kvs [-> ->]]]. destruct invert; repeat split; reflexivity.
+Qed.
+End Params.
